@@ -82,6 +82,10 @@ CLAIMED = {
     "C19": ("S", "A real MessagePassingComputation is driven through every history of up to 6 (8) operations among receive/post/pause/resume/start chosen by the engine; "
                  "handled == received and sent == posted, in order, exactly once, on every history.",
             "Histories are sequences of concrete operations (no numeric symbolic input); re-injected priority-19 messages are modelled as handled before newer ones (what C18 establishes for the agent queue).", "4/C19", S),
+    "C20": ("S", "A real Directory/DirectoryComputation and the real Discovery/DiscoveryComputation of an observer and an actor agent are wired on the bench; every history of <= 4 (5) operations "
+                 "(register/unregister computation and replica; subscribe/unsubscribe computation, replicas, agent) is interleaved with message deliveries in every per-channel-FIFO order by the engine; "
+                 "after the final drain the observer's view of every still-subscribed item must equal the directory's and callbacks must have fired on change.",
+            "Discrete exploration (no numeric input). One observer, one actor, one computation and its replica; 'any order' is read as FIFO per channel. One listed finding (replica notifications for an unknown computation).", "4/C20", S),
     "C23": ("S", "oneagent, adhoc, heur_comhost and gh_cgdp distribute() executed on real computation graphs with symbolic capacities, per-node symbolic footprints, zero/positive symbolic hosting costs, "
                  "symbolic routes, solver-chosen must_host hints and random draws; for every returned mapping z3 decides 'each computation once on a declared agent, hints honoured, footprint sums within capacity', "
                  "any exception other than ImpossibleDistributionException is a violation. Two listed findings (hints ignored by three methods; adhoc must_host capacity).",
